@@ -64,7 +64,7 @@ def encodePixel (fmt : String) (r g b a : ExtReal) : Option Nat :=
 
 /-- `E <path> <format> <w> <h> <color> <pitchExtra> <content> <cseed> <quality> <dither> <metric> <parallel> <k|->`
 — colour, pitch, content, options do not influence the predicted result: that is the property.
-`Q <format> <r> <g> <b> <a>` -/
+`Q <format> <r> <g> <b> <a>`; `S <rbits> <gbits> <bbits>` -/
 def runC15 (line : String) : String :=
   match toks line with
   | ["E", path, fmt, w, h, color, pitch, content, cseed, q, d, m, par, k] =>
@@ -99,6 +99,16 @@ def runC15 (line : String) : String :=
       | some v => s!"px {v}"
       | none => "bad-case"
     | _, _, _, _ => "bad-case"
+  | ["S", r, g, b] =>
+    -- bit patterns through the bit-level model of `rgb9995f::from_f32`; which zero `f32::max`
+    -- returns for `-0.0` against `+0.0` does not reach the encoded word, one choice is run
+    match nat? r, nat? g, nat? b with
+    | some r, some g, some b =>
+      if r ≥ 2 ^ 32 ∨ g ≥ 2 ^ 32 ∨ b ≥ 2 ^ 32 then "bad-case" else
+      match SharedExp.fromF32 (fun _ => false) r g b with
+      | some v => s!"px {v}"
+      | none => "panic"
+    | _, _, _ => "bad-case"
   | _ => "bad-case"
 
 end Dds.Drv.C15
